@@ -95,3 +95,19 @@ func TestVerifReplayGetSubnetHeldIPs(t *testing.T) {
 	}
 	fmt.Println("NOT-REPRODUCED: offered subnets", subnets.List(), "reach every held ip")
 }
+
+// ensureIPAMConf#pre:ConfigurePool#0:1: a configuration text whose pool list contains null must be
+// rejected with an error, not crash the daemon.
+func TestVerifReplayNullPoolInConfig(t *testing.T) {
+	fipPlugin, stopChan, _ := createPluginTestNodes(t)
+	defer func() { stopChan <- struct{}{} }()
+	defer func() {
+		if r := recover(); r != nil {
+			fmt.Printf("REPRODUCED: ensureIPAMConf panics on the configuration text [null]: %v\n", r)
+			t.FailNow()
+		}
+	}()
+	last := ""
+	_, err := fipPlugin.ensureIPAMConf(&last, `[null]`)
+	fmt.Println("NOT-REPRODUCED: ensureIPAMConf returned", err)
+}
